@@ -27,6 +27,22 @@ def relational_to_piecewise(expr: sp.Expr) -> sp.Piecewise:
     return expr
 
 
+def _add(*terms) -> sp.Expr:
+    """Unevaluated sum with a flat argument list.
+
+    sympy's functions expect the arguments of a sum to be flat: with a sum
+    nested in a sum, e.g. ``x + (pi + 1.2)``, the trigonometric functions peel
+    off the whole inner sum as a multiple of pi.
+    """
+    flat: list[sp.Expr] = []
+    for term in terms:
+        if isinstance(term, sp.Add):
+            flat.extend(term.args)
+        else:
+            flat.append(term)
+    return sp.Add(*flat, evaluate=False)
+
+
 def binary_op(op: str, fst, snd):
     """Binary operation
 
@@ -48,9 +64,9 @@ def binary_op(op: str, fst, snd):
     snd = relational_to_piecewise(snd)
 
     if op == "+":
-        return sp.Add(fst, snd, evaluate=False)
+        return _add(fst, snd)
     if op == "-":
-        return sp.Add(fst, sp.Mul(sp.Integer(-1), snd, evaluate=False), evaluate=False)
+        return _add(fst, sp.Mul(sp.Integer(-1), snd, evaluate=False))
     if op == "/":
         return sp.Mul(fst, sp.Pow(snd, sp.Integer(-1), evaluate=False), evaluate=False)
     if op == "*":
